@@ -108,23 +108,24 @@ def log2Entry (base : Nat) : Nat × Int :=
   | some t => t.2
   | none => (0, 0)
 
-/-- `(int64_t) floor(log2(base) * exponent)` computed in double arithmetic: the product of two doubles is rounded
-    to 53 bits (ties-to-even), then floored. -/
-def log2MulFloor (base : Nat) (exponent : Int) : Int :=
-  let (lm, le) := log2Entry base
-  let p := lm * exponent.natAbs
-  if p = 0 then 0
+/-- magnitude part of `floor(L * a)` in double arithmetic for L = lm·2^le, a ≥ 0: the product is rounded to 53 bits
+    (ties-to-even); returns (integer part, whether a non-zero fraction was dropped) -/
+def mulFloorMag (lm : Nat) (le : Int) (a : Nat) : Nat × Bool :=
+  let p := lm * a
+  if p = 0 then (0, false)
   else
-    let l := bitLen p
-    let s := l - 53
+    let s := bitLen p - 53
     let r := rneShift p s
     let e : Int := le + s
-    if e ≥ 0 then (if exponent < 0 then -((r <<< e.toNat : Nat) : Int) else ((r <<< e.toNat : Nat) : Int))
-    else
-      let k := (-e).toNat
-      let q := r >>> k
-      let rem := r % 2 ^ k
-      if exponent ≥ 0 then (q : Int) else if rem = 0 then -(q : Int) else -((q : Int) + 1)
+    if e ≥ 0 then (r <<< e.toNat, false)
+    else (r >>> (-e).toNat, decide (r % 2 ^ (-e).toNat ≠ 0))
+
+/-- `(int64_t) floor(log2(base) * exponent)` computed in double arithmetic: the product of two doubles is rounded
+    to 53 bits (ties-to-even), then floored (towards −∞). -/
+def log2MulFloor (base : Nat) (exponent : Int) : Int :=
+  let qf := mulFloorMag (log2Entry base).1 (log2Entry base).2 exponent.natAbs
+  if exponent ≥ 0 then (qf.1 : Int)
+  else if qf.2 then -((qf.1 : Int) + 1) else -(qf.1 : Int)
 
 /-! ## bignat_extract / convert -/
 
